@@ -1,4 +1,5 @@
 import Cppcms.C12.Roundtrip
+import Cppcms.C12.Feed
 /-!
 # C12 property theorems
 
@@ -125,5 +126,146 @@ theorem multipart_roundtrip (cfg : Cfg) (bkey : Bytes) (hb : cfg.boundary = Spec
   by_cases hm : it.info.mime = []
   · have := h3 hm; simp [hm]; omega
   · simp [hm]
+
+/-! ## limits and refusals -/
+
+/-- what a `Seen` hands to the application -/
+def delivered : Seen → List (Bytes × Bytes) × List Part
+  | .handled post files => (post, files)
+  | _ => ([], [])
+
+/-- **refused_not_partial**: whenever the request is answered with an error status (or is still
+waiting for input) the application has received no field and no file.  (In the model this is
+by construction: `post()`/`files()` are filled only at the end of a successful
+`on_content_progress`; the harness checks the same on the real `http::request` after every
+refused request.) -/
+theorem refused_not_partial (lim : Limits) (ct : Bytes) (cl : Nat) (cs : List Bytes) (code : Nat)
+    (h : request lim ct cl cs = .refused code) : delivered (request lim ct cl cs) = ([], []) := by
+  rw [h]; rfl
+
+/-- **limits_respected** (declared length): a body whose declared length exceeds the
+multipart limit (multipart/form-data) or the content length limit (anything else) is
+answered 413 before a single byte is looked at, whatever the bytes and the chunking. -/
+theorem limits_respected (lim : Limits) (ct : Bytes) (cl : Nat) (cs : List Bytes) (h0 : 0 < cl) :
+    (mediaType ct = ctMultipart → cl > lim.multipartLimit → request lim ct cl cs = .refused 413)
+    ∧ (mediaType ct ≠ ctMultipart → cl > lim.contentLimit → request lim ct cl cs = .refused 413) := by
+  have hcl : cl ≠ 0 := by omega
+  constructor
+  · intro hmt hgt
+    simp [request, start, hcl, hmt, hgt]; rfl
+  · intro hmt hgt
+    have : (mediaType ct == ctMultipart) = false := by simpa using hmt
+    simp [request, start, hcl, this, hgt]; rfl
+
+example : request { contentLimit := 10, multipartLimit := 20, memLimit := 0, diskOk := true }
+    [109, 117, 108, 116, 105, 112, 97, 114, 116, 47, 102, 111, 114, 109, 45, 100, 97, 116, 97, 59, 32, 98, 111, 117, 110, 100, 97, 114, 121, 61, 120]
+    21 [] = .refused 413 := by decide
+
+/-! ## urlencoded bodies -/
+
+/-- **malformed_urlencoded_refused**: a `application/x-www-form-urlencoded` body within the
+limits in which `parse_form_urlencoded` finds an item without `=` or with an empty name is
+answered 400 and nothing is delivered (D11; before the fix in /repo c05f1f7 the fields
+parsed so far were delivered with status 200, see `urlencoded_witness`). -/
+theorem malformed_urlencoded_refused (lim : Limits) (ct : Bytes) (cl : Nat) (cs : List Bytes)
+    (hmt : mediaType ct = ctUrlencoded) (h0 : 0 < cl) (hlim : cl ≤ lim.contentLimit)
+    (hlen : cl ≤ cs.flatten.length) (hbad : (parseForm (cs.flatten.take cl)).2 = false) :
+    request lim ct cl cs = .refused 400 := by
+  have hcl : cl ≠ 0 := by omega
+  have hne : (ctUrlencoded == ctMultipart) = false := by decide
+  have hgt : ¬ cl > lim.contentLimit := by omega
+  have hlt : ¬ (List.map List.length cs).sum < cl := by
+    have : cs.flatten.length = (List.map List.length cs).sum := List.length_flatten
+    omega
+  rcases hp : parseForm (cs.flatten.take cl) with ⟨pairs, ok⟩
+  rw [hp] at hbad
+  simp only at hbad
+  subst hbad
+  simp [request, start, hcl, hmt, hne, hgt, hlt, hp]
+  rfl
+
+/-- the D11 witness: `a=b&c&e=f` — `parse_form_urlencoded` has inserted `a=b` when it fails -/
+theorem urlencoded_witness :
+    parseForm [97, 61, 98, 38, 99, 38, 101, 61, 102] = ([([97], [98])], false) := by
+  simp [parseForm, parseFormLoop, splitAt1, List.span, List.span.loop, C15.urldecode, Gen.formAmp, Gen.formEq,
+    C15.Gen.urldecPlus, C15.Gen.urldecPct]
+
+/-! ## the read loop and content filters -/
+
+/-- **feed_flatten**: whatever the reads return and whatever the buffer size (≥ 1, what
+`request::setbuf` enforces), the pieces handed to `on_content_progress` are, concatenated,
+exactly the first `content_length` bytes of the stream. -/
+theorem feed_flatten (cl bufSize : Nat) (streamed : Bool) (hb : 0 < bufSize) (chunks : List Bytes) :
+    (feedAll cl bufSize streamed chunks).flatten = chunks.flatten.take cl :=
+  feedAll_flatten cl bufSize streamed hb chunks
+
+/-- **raw_filter_sees_each_byte_once**: with a `raw_content_filter` installed and the declared
+length within the limit, the concatenation of the chunks given to `on_data_chunk` is the
+first `content_length` bytes of the stream — every byte once, in order — and the request
+completes exactly when `content_length` bytes have arrived. -/
+theorem raw_filter_sees_each_byte_once (i : ReqIn) (hf : i.flt = 1) (h0 : 0 < i.cl)
+    (hlim : (if mediaType i.contentType == ctMultipart then decide (i.cl > i.lim.multipartLimit)
+             else decide (i.cl > i.lim.contentLimit)) = false) :
+    (requestIO i).raw = i.chunks.flatten.take i.cl
+    ∧ ((requestIO i).seen = .handled [] [] ↔ i.cl ≤ i.chunks.flatten.length)
+    ∧ (requestIO i).sizes.sum = (requestIO i).raw.length := by
+  have hcl : i.cl ≠ 0 := by omega
+  have hfeed := feedAll_flatten i.cl (max i.bufSize 1) true (by omega) i.chunks
+  have hsum : ∀ l : List Bytes, (l.map (·.length)).sum = l.flatten.length := by
+    intro l; rw [List.length_flatten]
+  simp only [requestIO, hf, beq_self_eq_true, if_true, hcl, if_false, hlim, Bool.false_eq_true]
+  refine ⟨hfeed, ?_, ?_⟩
+  · rw [hfeed]
+    simp only [List.length_take, beq_iff_eq]
+    constructor
+    · intro h
+      split at h
+      · next he => omega
+      · cases h
+    · intro h
+      have h' : i.cl ≤ (List.map List.length i.chunks).sum := by rw [← List.length_flatten]; exact h
+      simp [Nat.min_eq_left h']
+  · exact hsum _
+
+/-- the strongest form of "however the body is cut": reads of any sizes, any buffer size, even
+a peer that sends more than it declared — what the application sees depends only on the byte
+stream (and on the first `content_length` bytes of it). -/
+theorem requestIO_cut_independent (i j : ReqIn) (hflt : i.flt = j.flt) (hct : i.contentType = j.contentType)
+    (hcl : i.cl = j.cl) (hlim : i.lim = j.lim) (hq : i.query = j.query)
+    (hstream : i.chunks.flatten = j.chunks.flatten) :
+    (requestIO i).seen = (requestIO j).seen ∧ (requestIO i).get = (requestIO j).get := by
+  have hfi := fun st => feedAll_flatten i.cl (max i.bufSize 1) st (by omega) i.chunks
+  have hfj := fun st => feedAll_flatten j.cl (max j.bufSize 1) st (by omega) j.chunks
+  have hlen : ∀ st, (feedAll i.cl (max i.bufSize 1) st i.chunks).flatten.length ≤ i.cl := by
+    intro st; rw [hfi]; simp [List.length_take]; omega
+  have hsame : ∀ st, (feedAll i.cl (max i.bufSize 1) st i.chunks).flatten = (feedAll j.cl (max j.bufSize 1) st j.chunks).flatten := by
+    intro st; rw [hfi, hfj, hstream, hcl]
+  have hfj' : ∀ st, (feedAll i.cl (max j.bufSize 1) st j.chunks).flatten = List.take i.cl i.chunks.flatten := by
+    intro st; rw [hcl, hfj, hstream]
+  constructor
+  · unfold requestIO
+    rw [← hflt, ← hct, ← hcl, ← hlim, ← hq]
+    by_cases h1 : (i.flt == 1) = true
+    · simp only [h1, if_true, apply_ite ReqOut.seen, hfi true, hfj' true]
+    · simp only [h1, Bool.false_eq_true, if_false]
+      cases hs : start i.lim i.contentType i.cl with
+      | error code => simp only
+      | ok m =>
+        cases m with
+        | empty => simp only
+        | full ue =>
+          simp only
+          exact request_chunking_independent _ _ _ _ _ (by rw [hfi, hfj']) (hlen false)
+        | multipart cfg =>
+          simp only
+          exact request_chunking_independent _ _ _ _ _ (by rw [hfi, hfj']) (hlen true)
+  · unfold requestIO
+    rw [← hflt, ← hct, ← hcl, ← hlim, ← hq]
+    by_cases h1 : (i.flt == 1) = true
+    · simp only [h1, if_true, apply_ite ReqOut.get]
+    · simp only [h1, Bool.false_eq_true, if_false]
+      cases hs : start i.lim i.contentType i.cl with
+      | error code => rfl
+      | ok m => cases m <;> rfl
 
 end Cppcms.C12.Props
